@@ -209,6 +209,38 @@ class Interp:
                         raise Unsupported(f"class {name}: body statement {type(st).__name__}")
                 Interp._SYNTH[key] = type(name, (Synth,), attrs)
                 return Interp._SYNTH[key]
+            is_dc = any((isinstance(d_, ast.Name) and d_.id == "dataclass") or (isinstance(d_, ast.Attribute) and d_.attr == "dataclass") or (isinstance(d_, ast.Call) and lit_name(d_.func) in ("dataclass", "dataclasses.dataclass")) for d_ in c.decorator_list)
+            if is_dc and bases == (object,):
+                # a plain record: fields in declaration order, constant defaults / list-dict-set factories
+                fl = []
+                for st in c.body:
+                    if isinstance(st, ast.AnnAssign) and isinstance(st.target, ast.Name):
+                        if st.value is None:
+                            fl.append((st.target.id, ("required", None)))
+                        elif isinstance(st.value, ast.Call) and lit_name(st.value.func) in ("field", "dataclasses.field"):
+                            fac = next((lit_name(k_.value) for k_ in st.value.keywords if k_.arg == "default_factory"), None)
+                            dfl = next((k_.value for k_ in st.value.keywords if k_.arg == "default"), None)
+                            fl.append((st.target.id, ("factory", fac) if fac else ("const", self.expr(dfl, Env(None)) if dfl is not None else None)))
+                        else:
+                            fl.append((st.target.id, ("const", self.expr(st.value, Env(None)))))
+
+                def __init__(obj, *args, _fl=fl, _name=name, **kw):
+                    names = [f_[0] for f_ in _fl]
+                    if len(args) > len(names):
+                        raise TypeError(_name)
+                    for n_, a_ in zip(names, args):
+                        setattr(obj, n_, a_)
+                    for k_, v_ in kw.items():
+                        if k_ not in names or hasattr(obj, k_) and k_ in names[:len(args)]:
+                            raise TypeError(k_)
+                        setattr(obj, k_, v_)
+                    for n_, d_ in _fl:
+                        if not hasattr(obj, n_):
+                            if d_[0] == "required":
+                                raise TypeError(n_)
+                            setattr(obj, n_, {"list": list, "set": set, "dict": dict}.get(d_[1], list)() if d_[0] == "factory" else d_[1])
+                Interp._SYNTH[key] = type(name, (Synth,), {"__init__": __init__, "__dl_record__": True, "__repr__": lambda o_, _fl=fl, _n=name: f"{_n}({', '.join(f'{f_[0]}={getattr(o_, f_[0], None)!r}' for f_ in _fl)})"})
+                return Interp._SYNTH[key]
             Interp._SYNTH[key] = type(name, bases, {})
         return Interp._SYNTH[key]
 
@@ -815,15 +847,22 @@ class Interp:
                     return getattr(base, m)(*args, **kwargs)
                 except (ValueError, TypeError, LookupError) as e:
                     raise Raised(type(e).__name__, "", n)
-            if isinstance(base, dict) and m in ("get", "items", "values", "keys", "setdefault", "pop", "copy", "update"):
+            if isinstance(base, dict) and m in ("get", "items", "values", "keys", "setdefault", "pop", "copy", "update", "clear", "popitem"):
                 r = getattr(base, m)(*([self._hashable(args[0])] + list(args[1:]) if args and m != "update" else args))
                 return list(r) if m in ("items", "values", "keys") else r
-            if isinstance(base, list) and m in ("append", "extend", "index", "count", "copy", "insert", "pop", "remove"):
+            if isinstance(base, list) and m in ("append", "extend", "index", "count", "copy", "insert", "pop", "remove", "clear", "reverse", "sort"):
                 try:
                     return getattr(base, m)(*args)
                 except (ValueError, IndexError) as e:
                     raise Raised(type(e).__name__, "", n)
-            if isinstance(base, (set, frozenset)) and m in ("add", "union", "intersection", "difference", "copy", "issubset", "discard"):
+            if isinstance(base, (set, frozenset)) and m in ("add", "union", "intersection", "difference", "copy", "issubset", "issuperset", "isdisjoint", "discard", "clear", "update", "symmetric_difference", "difference_update", "intersection_update"):
+                return getattr(base, m)(*args)
+            if isinstance(base, set) and m in ("remove", "pop"):
+                try:
+                    return getattr(base, m)(*args)
+                except KeyError:
+                    raise Raised("KeyError", "", n)
+            if False:
                 return getattr(base, m)(*args)
             if isinstance(base, tuple) and m in ("index", "count"):
                 return getattr(base, m)(*args)
